@@ -45,7 +45,7 @@ static void all_meta (SNDFILE *s, int level)
 		memset (&bi, 0, sizeof (bi)) ; snprintf (bi.description, sizeof (bi.description), "desc") ; snprintf (bi.coding_history, sizeof (bi.coding_history), "A=PCM\r\n") ; bi.coding_history_size = 7 ; sf_command (s, SFC_SET_BROADCAST_INFO, &bi, sizeof (bi)) ;
 		memset (&ci, 0, sizeof (ci)) ; snprintf (ci.title, sizeof (ci.title), "cart") ; snprintf (ci.tag_text, sizeof (ci.tag_text), "tag") ; ci.tag_text_size = 4 ; sf_command (s, SFC_SET_CART_INFO, &ci, sizeof (ci)) ;
 		memset (&cu, 0, sizeof (cu)) ; cu.cue_count = 5 ; for (i = 0 ; i < 5 ; i++) { cu.cue_points [i].indx = i ; cu.cue_points [i].sample_offset = i * 3 ; } sf_command (s, SFC_SET_CUE, &cu, sizeof (cu)) ;
-		memset (&in, 0, sizeof (in)) ; in.basenote = 60 ; in.key_hi = in.velocity_hi = 127 ; in.loop_count = 2 ; in.loops [0].mode = in.loops [1].mode = SF_LOOP_FORWARD ; in.loops [0].end = 10 ; in.loops [1].start = 11 ; in.loops [1].end = 20 ; sf_command (s, SFC_SET_INSTRUMENT, &in, sizeof (in)) ;
+		memset (&in, 0, sizeof (in)) ; in.basenote = 60 ; in.key_hi = in.velocity_hi = 127 ; in.loop_count = 2 ; in.loops [0].mode = in.loops [1].mode = SF_LOOP_FORWARD ; in.loops [0].end = 10 ; in.loops [1].start = 11 ; in.loops [1].end = 20 ; if (level != 3) sf_command (s, SFC_SET_INSTRUMENT, &in, sizeof (in)) ;	/* level 3: cues without instrument (AIFF writes MARK only then) */
 		sf_command (s, SFC_SET_CHANNEL_MAP_INFO, cm, 2 * sizeof (int)) ; sf_command (s, SFC_SET_ADD_PEAK_CHUNK, NULL, SF_TRUE) ;
 		for (i = 0 ; i < 25 ; i++) { SF_CHUNK_INFO c ; memset (&c, 0, sizeof (c)) ; snprintf (c.id, sizeof (c.id), "ck%02d", i) ; c.id_size = 4 ; c.datalen = 10 + i ; c.data = (void *) txt ; sf_set_chunk (s, &c) ; }
 		{	SF_DITHER_INFO di ; memset (&di, 0, sizeof (di)) ; di.type = SFD_WHITE ; di.level = 0.1 ; sf_command (s, SFC_SET_DITHER_ON_WRITE, &di, sizeof (di)) ; sf_command (s, SFC_SET_DITHER_ON_READ, &di, sizeof (di)) ; }
@@ -184,20 +184,31 @@ int main (int argc, char **argv)
 				account (key, scen_input, &in, 0) ;
 				mv_free (&mm) ;
 				}
-			/* C2. systematic chunk mutations: every marker in the first 1500 bytes x 16 mutations of its size field / id / truncation, read and read-write */
+			/* C2. systematic chunk mutations: every chunk of the header (found by walking the chunk list) x 16 mutations of its size field / id / truncation,
+			**     read and read-write; two metadata profiles of the base file (everything; cues without instrument) */
 			if (s && (maj == SF_FORMAT_WAV || maj == SF_FORMAT_WAVEX || maj == SF_FORMAT_RF64 || maj == SF_FORMAT_AIFF || maj == SF_FORMAT_CAF || maj == SF_FORMAT_W64 || maj == SF_FORMAT_SVX || maj == SF_FORMAT_AVR || maj == SF_FORMAT_VOC || maj == SF_FORMAT_MAT5))
-			{	int mi, mk ; CORP cb ; cb.d = rich.d ; cb.len = (long) rich.len ; cb.format = format ; cb.ch = c ; cb.meta = 2 ;
-				for (mi = 0 ; mi < 60 ; mi++) for (mk = 0 ; mk < MUTATE_MARKER_KINDS ; mk++)
-				{	INPUT in ; MEMF mm ; char desc [200] ; int md ;
-					if (!vh_case ("%s ch=%d marker %d mutation %d", vh_fname (format), c, mi, mk)) continue ;
-					if (!mutate_marker (&mm, &cb, mi, mk, 1500, desc, sizeof (desc))) continue ;
-					for (md = 0 ; md < 2 ; md++)
-					{	in.d = mm.d ; in.len = (long) mm.len ; in.route = 0 ; in.mode = md ? SFM_RDWR : SFM_READ ;
-						snprintf (key, sizeof (key), "C16|leak|marker-mutation|%s|%s", vh_fname (format), md ? "rdwr" : "read") ;
-						vh_distinct (vh_fnv (vh_fnv (0, mm.d, (size_t) mm.len), &md, 4) ^ 0xC2) ;
-						account (key, scen_input, &in, 0) ;
+			{	int mi, mk, rv ;
+				for (rv = 0 ; rv < 2 ; rv++)
+				{	MEMF rich2 ; CORP cb ; memset (&rich2, 0, sizeof (rich2)) ;
+					if (rv == 0) { cb.d = rich.d ; cb.len = (long) rich.len ; }
+					else
+					{	SNDFILE *s2 = vh_open_w (&rich2, format, c, 8000, NULL) ; short z [512] = { 0 } ; if (!s2) break ;
+						all_meta (s2, 3) ; sf_write_short (s2, z, 512 / c * c) ; sf_set_string (s2, SF_STR_COMMENT, "a string written after the audio data") ; sf_close (s2) ; cb.d = rich2.d ; cb.len = (long) rich2.len ; }
+					cb.format = format ; cb.ch = c ; cb.meta = 2 ;
+					for (mi = 0 ; mi < 80 ; mi++) for (mk = 0 ; mk < MUTATE_MARKER_KINDS ; mk++)
+					{	INPUT in ; MEMF mm ; char desc [200] ; int md ;
+						if (!vh_case ("%s ch=%d profile %d chunk %d mutation %d", vh_fname (format), c, rv, mi, mk)) continue ;
+						if (!mutate_marker (&mm, &cb, mi, mk, cb.len, desc, sizeof (desc))) continue ;
+						for (md = 0 ; md < 2 ; md++)
+						{	in.d = mm.d ; in.len = (long) mm.len ; in.route = 0 ; in.mode = md ? SFM_RDWR : SFM_READ ;
+							snprintf (key, sizeof (key), "C16|leak|marker-mutation|%s|%s", vh_fname (format), md ? "rdwr" : "read") ;
+							vh_distinct (vh_fnv (vh_fnv (0, mm.d, (size_t) mm.len), &md, 4) ^ 0xC2) ;
+							vh_stat ("chunk_mutations_run", 1) ;
+							account (key, scen_input, &in, 0) ;
+							}
+						mv_free (&mm) ;
 						}
-					mv_free (&mm) ;
+					mv_free (&rich2) ;
 					}
 				}
 			/* D. single-shot and persistent I/O faults while opening/reading, and while writing */
